@@ -1,4 +1,5 @@
 import MpVerif.C15.Lemmas
+import MpVerif.C15.LemmasReentrant
 import MpVerif.Gen.Signal
 /-!
 # C15 — an interrupt is never lost and never delivered with inconsistent state
@@ -374,6 +375,76 @@ example :
     let evs := schedule (expandProg Layout.current [.ctor, .reg 1 1, .work, .work]) 0 [(10, .int), (11, .term), (11, .int)]
     (run ⟨.bsd, false⟩ init evs).2 =
       [.brkFail, .cb 1 1, .rearm .int, .query true, .brkFail, .cb 1 1, .rearm .term, .brkFail, .exit1] := by decide
+
+/-! ## re-entrance: a second signal while `HandleSigInt` runs (`Reentrant.lean`)
+
+Outside the property's quantifier (which places signals relative to the *program's* steps), and until round 5 an
+assumption.  Now modelled for ONE nested delivery: the outer handler is split into its steps (`++stop_` = load + store),
+the nested signal `g'` arrives after `k` of them (`bsd`: only `g' ≠ g` nests, `g' = g` is held back; `sysv`: anything
+nests and `g` meets the default action).  Local theorems (any state with both handlers installed and `stop_ ≤ 2`,
+which by `Inv`/`C15_stop_bounded` is every state of a well-formed history between installation and teardown):
+what survives re-entrance — the interrupt is recorded, callbacks get the registered data, nothing else changes — and
+what does not: the *count*.  The whole-history theorems above stay without re-entrance (their invariant uses
+`stop_ ≤ 2`, which a nested delivery can exceed by one). -/
+
+/-- the step-wise handler without a nested signal is the atomic `deliver` (so, by `C15_gen_handleSigInt`, the source) -/
+theorem C15_reentrant_steps_are_deliver (md : Mode) (s : St) (g : Sig) (hd : s.disp g = true) (hh : s.halted = none) :
+    (hRun md g handlerSteps ⟨entryState md s g, 0, []⟩).s = (deliver md s g).1 ∧
+    (hRun md g handlerSteps ⟨entryState md s g, 0, []⟩).obs = (deliver md s g).2 :=
+  reentrant_steps_are_deliver md s g hd hh
+
+/-- **What survives a nested signal, at every gap `k` of the outer handler, both semantics, any pair of signals**:
+    if the process still runs afterwards the interrupt is recorded (`stop_ ≥ 1`), `stop_ ≤ 3`, the interrupter and
+    the registration are untouched, and every callback invoked (by the outer or the nested handler) got the
+    registered data. -/
+theorem C15_reentrant_safe (md : Mode) (s : St) (g g' : Sig) (k : Nat)
+    (hI : s.dispInt = true) (hT : s.dispTerm = true) (hh : s.halted = none) (h2 : s.stop ≤ 2)
+    (hr : (deliverNested md s g g' k).1.halted = none) :
+    1 ≤ (deliverNested md s g g' k).1.stop ∧ (deliverNested md s g g' k).1.stop ≤ 3 ∧
+    (deliverNested md s g g' k).1.intr = s.intr ∧ (deliverNested md s g g' k).1.handler = s.handler ∧
+    (deliverNested md s g g' k).1.data = s.data ∧
+    (∀ h d, Obs.cb h d ∈ (deliverNested md s g g' k).2 → h = s.handler ∧ d = s.data) :=
+  reentrant_safe md s g g' k hI hT hh h2 hr
+
+/-- **Outside the two count windows a nested signal is a sequential pair**: arriving before the outer exit test
+    (`k ≤ 1`) it behaves like `g'` then `g`; arriving after the outer `++stop_` has stored (`k ≥ 4`) like `g` then `g'`
+    (same termination, and the same state if the process still runs).  So all whole-history theorems cover these
+    nestings. -/
+theorem C15_reentrant_sequential_outside_window (md : Mode) (s : St) (g g' : Sig) (k : Nat) (hne : g' ≠ g)
+    (hI : s.dispInt = true) (hT : s.dispTerm = true) (hh : s.halted = none) (h2 : s.stop ≤ 2)
+    (hk : k ≤ 1 ∨ 4 ≤ k) :
+    let seq := if k ≤ 1 then run md s [.sig g', .sig g] else run md s [.sig g, .sig g']
+    (deliverNested md s g g' k).1.halted = seq.1.halted ∧
+    ((deliverNested md s g g' k).1.halted = none → (deliverNested md s g g' k).1 = seq.1) :=
+  reentrant_sequential_outside_window md s g g' k hne hI hT hh h2 hk
+
+/-
+Full-strength third-interrupt clause under re-entrance (FALSE, see the two counterexamples): three signals, one of
+them nested at any gap of another one's handler, terminate the process.
+-/
+
+/-- count window 1 (`k = 3`, between the load and the store of `++stop_`): the nested handler's increment is
+    overwritten.  After the constructor: SIGINT with SIGTERM nested there, then SIGINT: three interrupts, `stop_ = 2`,
+    the process runs. -/
+theorem C15_reentrant_counterexample_undercount :
+    let s0 := (run .bsd init ((ctorSteps Layout.current).map Ev.step)).1
+    let r := deliverNested .bsd s0 .int .term 3
+    r.1.halted = none ∧ r.1.stop = 1 ∧ (deliver .bsd r.1 .int).1.halted = none ∧ (deliver .bsd r.1 .int).1.stop = 2 := by
+  decide
+
+/-- count window 2 (`k = 2`, between `if (stop_ > 1) _exit(1);` and `++stop_`): with one interrupt already recorded,
+    SIGINT passes the exit test, the nested SIGTERM makes `stop_` 2, the outer handler makes it 3: three interrupts, no
+    exit (and `stop_` exceeds 2). -/
+theorem C15_reentrant_counterexample_overcount :
+    let s0 := (run .bsd init ((ctorSteps Layout.current).map Ev.step ++ [.sig .int])).1
+    let r := deliverNested .bsd s0 .int .term 2
+    s0.stop = 1 ∧ r.1.halted = none ∧ r.1.stop = 3 := by
+  decide
+
+/-- under SysV semantics the same signal arriving inside its own handler meets the default action -/
+example :
+    let s0 := (run .sysv init ((ctorSteps Layout.current).map Ev.step)).1
+    (deliverNested .sysv s0 .int .int 1).1.halted = some (.killed .int) := by decide
 
 /-! ## the handler stays installed -/
 
